@@ -256,3 +256,37 @@ def record_types():
 
 def obligations():
     return existence() + kinds_python_side() + library_calls() + record_types()
+
+
+RULE_KINDS = [
+    ("str_array_ref_exp", "A1$(1)", True), ("str_var", "A1$", True), ("str_literal", '"x"', True), ("str2_func_exp", "LEFT$(A1$,2)", True),
+    ("str2_func_exp", "RIGHT$(A1$,2)", True), ("str3_func_exp", "MID$(A1$,1,2)", True), ("num_str_func_exp", "CHR$(65)", True),
+    ("num_str_func_exp_statements", "STR$(1)", True), ("num_str_func_exp_statements", "HEX$(1)", True), ("str_func_exp_statements", "INKEY$", True),
+    ("string_expr", "STRING$(3,A1$)", True), ("str_exp", "A1$+B2$", True), ("str_exp", "A1$(2)", True), ("print_arg", "A1$(2)", True), ("rhs", "A1$(2)", True),
+    ("array_ref_exp", "A1(1)", False), ("var", "A1", False), ("num_literal", "1.5", False), ("hex_literal", "&HFF", False), ("func_exp", "ABS(1)", False),
+    ("func_str_exp", "LEN(A1$)", False), ("func_str_exp", "VAL(A1$)", False), ("func_str_exp", "ASC(A1$)", False), ("func_to_statements", "INT(1)", False),
+    ("func_to_statements2", "POINT(1,2)", False), ("joystk_to_statement", "JOYSTK(0)", False), ("varptr_expr", "VARPTR(A1)", False),
+    ("instr_expr", "INSTR(1,A1$,B2$)", False), ("paren_exp", "(A1)", False), ("unop_exp", "-A1", False), ("erno_expr", "ERNO", False), ("exp", "A1*2", False),
+    ("print_arg", "A1(2)", False), ("rhs", "A1(2)", False), ("rhs", "A1", False), ("rhs", "A1$", True),
+]
+
+
+def rule_kinds():
+    """F3-K against F2: the construct a rule builds is string-kinded iff the rule is a string rule"""
+    out = []
+    for rule, src, want in RULE_KINDS:
+        oid = "rule-kind/%s/%s" % (rule, src)
+
+        def run(rule=rule, src=src, want=want, oid=oid):
+            built, _ = f2.build(rule, src, operand_rules={})
+            got = getattr(built, "is_str_expr", None)
+            return [ob(oid, got == want, want, got, "is_str_expr of what the real visitor builds for this rule")]
+        out += guarded(oid, run)
+    return out
+
+
+_base_obligations = obligations
+
+
+def obligations():  # noqa: F811
+    return _base_obligations() + rule_kinds()
